@@ -147,7 +147,8 @@ func H_C14_Ops() {
 	steps := 3
 	universe := [][]byte{{vrt.Byte("ka")}, {vrt.Byte("kb")}}
 	if vrt.Thorough() {
-		steps = 4
+		// three keys (two symbolic bytes and the empty key); four steps over them are out of reach (more than
+		// three million paths)
 		universe = append(universe, []byte{})
 	} else if vrt.Choose("kb.empty", 2) == 1 {
 		// quick tier: the second key is a symbolic byte or the empty (non-nil) key
@@ -194,7 +195,8 @@ func H_C14_Flush() {
 	steps := 3
 	universe := [][]byte{{vrt.Byte("ka")}, {vrt.Byte("kb")}}
 	if vrt.Thorough() {
-		steps = 4
+		// three keys (two symbolic bytes and the empty key); four steps over them are out of reach (more than
+		// three million paths)
 		universe = append(universe, []byte{})
 	} else if vrt.Choose("kb.empty", 2) == 1 {
 		// quick tier: the second key is a symbolic byte or the empty (non-nil) key
